@@ -107,6 +107,24 @@ func (t *VerifC10Table) IterateAll(ctx context.Context, cb func(h hash.Hash, dat
 	}, &Stats{})
 }
 
+// ResolveShortHash is onHeapTableIndex.ResolveShortHash on the table's index (ok=false when the
+// index is of another type).
+func (t *VerifC10Table) ResolveShortHash(short []byte) (res []string, ok bool, err error) {
+	idx, err := t.cs.index()
+	if err != nil {
+		return nil, true, err
+	}
+	switch ti := idx.(type) {
+	case onHeapTableIndex:
+		res, err = ti.ResolveShortHash(short)
+		return res, true, err
+	case *onHeapTableIndex:
+		res, err = ti.ResolveShortHash(short)
+		return res, true, err
+	}
+	return nil, false, nil
+}
+
 // Count is chunkReader.count.
 func (t *VerifC10Table) Count() uint32 { return t.cs.count() }
 
